@@ -38,9 +38,24 @@
    contain, the window and the expected result with the admissible bounds of
    the estimate.
 
+   4. WRITE FAULTS (environment, bounded by MaxFaults / MaxSyncFaults): the
+      journal's Write may fail at any write attempt, its Sync may fail after a
+      successful Write.  As the code has it: when the Write fails nothing is
+      written, lastWriteTime AND the sketch are both kept, so nothing is lost
+      and the next chunk that does get written is stamped from the last GOOD
+      write and covers everything since then (StampCoversContent); AddIP still
+      adds its address (to the kept sketch) and the next AddIP tries again.  A
+      failed Sync is ignored (the line is in the journal, the writer goes on
+      as after a success).  A fault lasts for one script step: while an
+      add(block) step is under a Write fault every address of the block meets
+      the failing journal.  Window ends are also placed around the instants of
+      failed attempts.  AdvanceOnFailure = TRUE is NOT the code: it is the
+      variant that stamps lastWriteTime before writing, kept so that TLC shows
+      StampCoversContent has teeth (Stamp_before_write.cfg must be violated).
+
    Don't-cares: the unit of time; what the sketch bytes look like; addresses
    still in the unwritten current sketch (they are not in the journal and no
-   window counts them); write errors and partial lines (not modelled); the
+   window counts them); write errors and partial lines (a failing Write writes nothing); the
    estimate of sets larger than ExactMax only within Tol. *)
 EXTENDS Integers, Sequences, FiniteSets, TLC, Json
 
@@ -53,6 +68,9 @@ CONSTANTS
   MaxChunks,  \* at most this many chunks are written
   Kinds,      \* layouts: how a chunk may be ended, subset of {"rot", "flush", "flush0"}
   Windows,    \* "all": every before/equal/after placement of both window ends | "chunks": chunk-identifying windows only
+  MaxFaults,  \* at most this many failed journal Writes per behaviour
+  MaxSyncFaults, \* at most this many failed Syncs per behaviour
+  AdvanceOnFailure, \* FALSE = the code; TRUE = lastWriteTime is advanced although the Write failed (teeth check only)
   ExactMax,   \* unions up to this size must be counted exactly
   TolDiv      \* beyond: |estimate - exact| <= max(1, exact / TolDiv)   (TolDiv = 50: 2 %)
 
@@ -94,10 +112,12 @@ Scan(ch, from, to, i, merged, k) ==
 VARIABLES plan, pcnt,            \* the script and the index of its next step
           now, last, cur,        \* clock, lastWriteTime, blocks in the current sketch
           chunks,                \* the journal: sequence of [start, end, set, by]
-          adds,                  \* history: one record [b, t, into] per AddIP
+          adds,                  \* history: one record [b, t, into, failed] per AddIP
+          fails, syncfails,      \* history: script steps whose Write / Sync failed
+          failtimes,             \* history: instants of failed Writes
           win, res,              \* the query window and its result (set by Query)
           keyed                  \* Family = "keys": the two (key, blocks) journals
-vars == <<plan, pcnt, now, last, cur, chunks, adds, win, res, keyed>>
+vars == <<plan, pcnt, now, last, cur, chunks, adds, fails, syncfails, failtimes, win, res, keyed>>
 
 Op(k, v) == [k |-> k, v |-> v]
 Alphabet == {Op("add", b) : b \in Blocks} \cup {Op("wait", d) : d \in Waits} \cup {Op("flush", 0)}
@@ -128,6 +148,7 @@ Layouts == UNION {{LayoutScript(cs, ks, 1) : cs \in [1..n -> Contents], ks \in [
 Init ==
   /\ plan \in (IF Family = "scripts" THEN Scripts ELSE IF Family = "layouts" THEN Layouts ELSE {<<>>})
   /\ pcnt = 1 /\ now = 0 /\ last = 0 /\ cur = {} /\ chunks = <<>> /\ adds = <<>>
+  /\ fails = {} /\ syncfails = {} /\ failtimes = {}
   /\ win = NoWin /\ res = [included |-> 0, count |-> 0, lo |-> 0, hi |-> 0]
   /\ IF Family = "keys"
      THEN keyed \in {<<[key |-> ka, set |-> sa], [key |-> kb, set |-> sb]>> : ka \in {"k1"}, kb \in {"k1", "k2"}, sa \in Contents, sb \in Contents}
@@ -135,20 +156,37 @@ Init ==
 
 Written(by) == Append(chunks, [start |-> last, end |-> now, set |-> cur, by |-> by])
 
+(* the three outcomes of a write attempt made at script step pcnt *)
+WriteOK   == fails' = fails /\ syncfails' = syncfails /\ failtimes' = failtimes
+SyncFails == Cardinality(syncfails) < MaxSyncFaults /\ syncfails' = syncfails \cup {pcnt}
+             /\ fails' = fails /\ failtimes' = failtimes
+WriteFails == Cardinality(fails) < MaxFaults /\ fails' = fails \cup {pcnt} /\ failtimes' = failtimes \cup {now}
+              /\ syncfails' = syncfails
+
 AddIP(b) ==
   /\ IF last + I < now                      \* c.lastWriteTime.Add(c.writeInterval).Before(time.Now())
-     THEN /\ Len(chunks) < MaxChunks
-          /\ chunks' = Written("rot") /\ last' = now /\ cur' = {b}
-     ELSE /\ cur' = cur \cup {b} /\ UNCHANGED <<chunks, last>>
-  /\ adds' = Append(adds, [b |-> b, t |-> now, into |-> Len(chunks') + 1])
+     THEN \/ /\ WriteOK \/ SyncFails
+             /\ Len(chunks) < MaxChunks
+             /\ chunks' = Written("rot") /\ last' = now /\ cur' = {b}
+             /\ adds' = Append(adds, [b |-> b, t |-> now, into |-> Len(chunks') + 1, failed |-> FALSE])
+          \/ /\ WriteFails                    \* nothing written, sketch kept, the address joins it
+             /\ cur' = cur \cup {b} /\ UNCHANGED chunks
+             /\ last' = (IF AdvanceOnFailure THEN now ELSE last)
+             /\ adds' = Append(adds, [b |-> b, t |-> now, into |-> Len(chunks) + 1, failed |-> TRUE])
+     ELSE /\ cur' = cur \cup {b} /\ UNCHANGED <<chunks, last, fails, syncfails, failtimes>>
+          /\ adds' = Append(adds, [b |-> b, t |-> now, into |-> Len(chunks) + 1, failed |-> FALSE])
   /\ UNCHANGED now
 
 Flush ==
-  /\ Len(chunks) < MaxChunks
-  /\ chunks' = Written("flush") /\ last' = now /\ cur' = {}
+  /\ \/ /\ WriteOK \/ SyncFails
+        /\ Len(chunks) < MaxChunks
+        /\ chunks' = Written("flush") /\ last' = now /\ cur' = {}
+     \/ /\ WriteFails
+        /\ last' = (IF AdvanceOnFailure THEN now ELSE last)
+        /\ UNCHANGED <<chunks, cur>>
   /\ UNCHANGED <<now, adds>>
 
-Wait(d) == now' = now + d /\ UNCHANGED <<last, cur, chunks, adds>>
+Wait(d) == now' = now + d /\ UNCHANGED <<last, cur, chunks, adds, fails, syncfails, failtimes>>
 
 Step ==
   /\ win = NoWin /\ pcnt <= Len(plan)
@@ -157,14 +195,15 @@ Step ==
   /\ pcnt' = pcnt + 1
   /\ UNCHANGED <<plan, win, res, keyed>>
 
-(* window ends: just before, at, and just after every chunk boundary *)
-Boundaries == {chunks[i].start : i \in DOMAIN chunks} \cup {chunks[i].end : i \in DOMAIN chunks}
+(* window ends: just before, at, and just after every chunk boundary and every failed write attempt *)
+Boundaries == {chunks[i].start : i \in DOMAIN chunks} \cup {chunks[i].end : i \in DOMAIN chunks} \cup failtimes
 Positions == UNION {{b - 1, b, b + 1} : b \in Boundaries}
 AllWindows == Positions \X Positions
 ChunkWindows ==
   {<<chunks[i].start, chunks[j].end>> : i \in DOMAIN chunks, j \in DOMAIN chunks}
   \cup {<<chunks[i].start + 1, chunks[i].end>> : i \in DOMAIN chunks}
   \cup {<<chunks[i].start, chunks[i].end - 1>> : i \in DOMAIN chunks}
+  \cup {<<f + d, chunks[j].end>> : f \in failtimes, d \in {-1, 0, 1}, j \in DOMAIN chunks}
 QueryWindows == IF chunks = <<>> THEN {<<-1, now + 1>>} ELSE IF Windows = "all" THEN AllWindows ELSE ChunkWindows
 
 Query ==
@@ -172,7 +211,7 @@ Query ==
   /\ \E w \in QueryWindows :
        /\ win' = [from |-> w[1], to |-> w[2]]
        /\ res' = Count(chunks, w[1], w[2])
-  /\ UNCHANGED <<plan, pcnt, now, last, cur, chunks, adds, keyed>>
+  /\ UNCHANGED <<plan, pcnt, now, last, cur, chunks, adds, fails, syncfails, failtimes, keyed>>
 
 Next == Step \/ Query
 Spec == Init /\ [][Next]_vars
@@ -194,12 +233,12 @@ Contiguous ==
 (* nothing is written by AddIP before the interval has elapsed ... *)
 NoEarlyRotation == \A i \in DOMAIN chunks : chunks[i].by = "rot" => chunks[i].end - chunks[i].start > I
 (* ... and no rotation is missed: an address is never added to a sketch that
-   is older than the interval *)
+   is older than the interval, unless the write that was due failed then *)
 NoOverdueAdd ==
   \A a \in DOMAIN adds :
     LET k == adds[a].into
         s == IF k <= Len(chunks) THEN chunks[k].start ELSE last
-    IN adds[a].t <= s + I
+    IN adds[a].t <= s + I \/ adds[a].failed \/ (AdvanceOnFailure /\ fails # {})
 
 (* every AddIP lands in exactly one chunk - the one current when it is added -
    and chunks contain nothing else (the sketch is cleared on every write) *)
@@ -208,10 +247,15 @@ EveryAddInExactlyOneChunk ==
   /\ \A a \in DOMAIN adds : adds[a].into \in 1..(Len(chunks) + 1)
   /\ \A k \in DOMAIN chunks : chunks[k].set = Landed(k)
   /\ cur = Landed(Len(chunks) + 1)
-  /\ \A a \in DOMAIN adds :
-       LET k == adds[a].into IN
-         IF k <= Len(chunks) THEN chunks[k].start <= adds[a].t /\ adds[a].t <= chunks[k].end
-         ELSE last <= adds[a].t
+
+(* nothing is mis-stamped, write faults or not: an address added at time t is
+   in a chunk whose [start, end] contains t; what is still unwritten was added
+   at or after lastWriteTime, from which the next chunk will be stamped *)
+StampCoversContent ==
+  \A a \in DOMAIN adds :
+    LET k == adds[a].into IN
+      IF k <= Len(chunks) THEN chunks[k].start <= adds[a].t /\ adds[a].t <= chunks[k].end
+      ELSE last <= adds[a].t
 
 (* the line-by-line reader computes the set-level contract *)
 ReaderIsContract ==
@@ -240,6 +284,7 @@ Emit ==
   THEN PrintT(ToJson([kind |-> "window", exactmax |-> ExactMax, interval |-> I, plan |-> plan,
                       chunks |-> [i \in DOMAIN chunks |-> ChunkOut(chunks[i])],
                       unwritten |-> SeqOfSet(cur),
+                      fails |-> SeqOfSet(fails), syncfails |-> SeqOfSet(syncfails),
                       from |-> win.from, to |-> win.to, expect |-> res]))
   ELSE TRUE
 =============================================================================
